@@ -111,3 +111,8 @@ where
         }
     }
 }
+
+// verification hook (add-only, inert unless built by `cargo kani`, which sets --cfg kani)
+#[cfg(kani)]
+#[path = "/verif/kani/checksum_harness.rs"]
+mod verif_kani;
